@@ -3,6 +3,7 @@
         for every sequence of modifier calls.
 -/
 import Gozod.Model.Modifiers
+import Gozod.Gen.C03Tables
 
 namespace Gozod.C03
 open Gozod.Mods
@@ -575,5 +576,46 @@ example :
        (⟨false, {}⟩, .nil)]).2
       = [.err .checkError, .ok (.src (.prefaultOk true)), .ok (.src (.dflt false)), .ok .inp, .err .typeError] := by
   decide
+
+/-! ## The regenerated tables (`Gozod/Gen/C03Tables.lean`, go/ast over /repo's working tree on every run)
+
+  These are statements about the WHOLE extracted table: an edit of the source that adds a field to ParseContext,
+  writes or reads one of its state fields anywhere in the library, reorders `processModifiersCore`, puts state
+  handling around it in `processModifiers`, or adds a schema type with modifier methods changes a proof
+  obligation here — not only a sampled run. -/
+
+open Gozod.Gen in
+/-- `Ctx` mirrors every field of `core.ParseContext`. -/
+theorem c03_ctx_fields_as_modelled : C03Tables.ctxFields = ctxFieldsExpected := by decide
+
+open Gozod.Gen in
+/-- No function of the library assigns a field of a ParseContext (or through a `*ParseContext` variable) — the
+    premise of `ctxStep` returning the context it was given (`step_ctx`). -/
+theorem c03_ctx_never_written : (C03Tables.ctxSites.filter fun s => s.kind == "write") = [] := by decide
+
+open Gozod.Gen in
+/-- `IsPrefaultContext` is named nowhere, and `ReportInput` only by the context constructors and `FinalizeIssue`
+    (attaching the raw input to a finished issue): nothing a verdict depends on reads the context's state. -/
+theorem c03_ctx_state_read_only_for_messages :
+    (C03Tables.ctxSites.all fun s => ctxSiteAllowed s.file s.fn s.field s.kind) = true := by decide
+
+open Gozod.Gen in
+/-- `processModifiersCore`'s branch order is the one `nilOutcome` / `processModifiersCtx` transcribe, and
+    `processModifiers` / `processModifiersStrict` are that single call. -/
+theorem c03_pmc_structure_as_transcribed :
+    C03Tables.pmcBranches = pmcBranchesExpected ∧
+    C03Tables.processModifiersBody = processModifiersBodyExpected ∧
+    C03Tables.processModifiersStrictBody = processModifiersBodyExpected := by decide
+
+open Gozod.Gen in
+/-- **Every** schema type of package `types` that declares one of the eight modifier methods is built by the
+    harness table (both lists are extracted: the first from the sources, the second by reflection on what the
+    table's constructors return). -/
+theorem c03_harness_covers_every_schema_type :
+    (C03Tables.schemaTypes.all fun t => C03Tables.harnessTypes.contains t.1) = true := by decide
+
+open Gozod.Gen in
+/-- Non-vacuity: the table is not empty and the format types are in it. -/
+example : C03Tables.schemaTypes.length ≥ 50 ∧ C03Tables.harnessTypes.contains "ZodBigInt" = true := by decide
 
 end Gozod.C03
